@@ -6,10 +6,15 @@ package main
 import (
 	"bytes"
 	"context"
+	"encoding/json"
 	"fmt"
+	"io/ioutil"
+	"os"
+	"path/filepath"
 	"sort"
 	"strconv"
 	"time"
+	"unicode/utf8"
 
 	"github.com/logrange/logrange/api"
 
@@ -723,6 +728,10 @@ func mkCase1(rp Replay) (*Case, error) {
 // Fields texts of the results are what C08 is about. One case per event. Texts are kept free of quoted literals that
 // unquote to more than 255 bytes (refused by the code; a tree without the repair of fieldkv-unquoted-item-over-255
 // would store a malformed list and panic in the query goroutine).
+// Besides the texts of the query results: every acknowledged event is returned exactly once (a partition that is two
+// index records is read twice); the tag lines the server PERSISTS (the keys of tindex.dat) are the canonical lines of
+// the written sets, one record per set, whatever the spelling a partition was created with; after a restart on the
+// same directory every event comes back once, with the same Tags and Fields texts.
 func mkE2E(rp Replay) (out []*Case, err error) {
 	defer func() {
 		if r := recover(); r != nil {
@@ -736,11 +745,13 @@ func mkE2E(rp Replay) (out []*Case, err error) {
 			err = nil
 		}
 	}()
-	srv, err := StartServer(ServerOpts{})
+	dir := TempDir("c08-e2e")
+	defer RemoveAll(dir)
+	srv, err := StartServer(ServerOpts{Dir: dir})
 	if err != nil {
 		return nil, err
 	}
-	defer srv.Stop()
+	defer func() { srv.Stop() }()
 	ctx := context.Background()
 	acked := make([]bool, len(rp.Evs))
 	n := 0
@@ -755,19 +766,37 @@ func mkE2E(rp Replay) (out []*Case, err error) {
 			n++
 		}
 	}
-	got := map[string]*api.LogEvent{}
-	WaitFor(30*time.Second, func() bool {
-		var qres api.QueryResult
-		if err := srv.Client.Query(ctx, &api.QueryRequest{Query: "SELECT LIMIT 10000", Limit: 10000}, &qres); err != nil || qres.Err != nil {
-			return false
+	// readAll polls until every acknowledged event is there; returns the events by message and how often each came in
+	// the last answer
+	readAll := func(s *Server) (map[string]*api.LogEvent, map[string]int) {
+		got := map[string]*api.LogEvent{}
+		var last []*api.LogEvent
+		WaitFor(30*time.Second, func() bool {
+			var qres api.QueryResult
+			if err := s.Client.Query(ctx, &api.QueryRequest{Query: "SELECT LIMIT 10000", Limit: 10000}, &qres); err != nil || qres.Err != nil {
+				return false
+			}
+			last = qres.Events
+			for _, e := range qres.Events {
+				got[e.Message] = e
+			}
+			return len(got) >= n
+		})
+		cnt := map[string]int{}
+		for _, e := range last {
+			cnt[e.Message]++
 		}
-		for _, e := range qres.Events {
-			got[e.Message] = e
-		}
-		return len(got) >= n
-	})
+		return got, cnt
+	}
+	got, cnt := readAll(srv)
 	for i, e := range rp.Evs {
-		cs := &Case{Stream: "e2e", Replay: Replay{Kind: "e2e", Evs: []E2EEvent{e}}, NonTrivial: acked[i]}
+		// the replay of a case holds its two predecessors too: neighbouring events of one partition matter (the
+		// querier caches the Fields text from one event to the next)
+		lo := i - 2
+		if lo < 0 {
+			lo = 0
+		}
+		cs := &Case{Stream: "e2e", Replay: Replay{Kind: "e2e", Evs: rp.Evs[lo : i+1]}, NonTrivial: acked[i]}
 		obs := GNone
 		var vals [][]byte
 		if m, err := rToMap(string(e.Tags)); err == nil {
@@ -782,7 +811,8 @@ func mkE2E(rp Replay) (out []*Case, err error) {
 			}
 		}
 		ut := unquoteTableMany(string(e.Tags), string(e.WF), string(e.EF))
-		if ev := got[fmt.Sprintf("m%04d", i)]; ev != nil {
+		msg := fmt.Sprintf("m%04d", i)
+		if ev := got[msg]; ev != nil {
 			obs = GSome(GPair(GStr(ev.Tags), GStr(ev.Fields)))
 			// oracle: what comes back parses, with the server's own parsers, to what went in
 			if !acked[i] {
@@ -797,7 +827,9 @@ func mkE2E(rp Replay) (out []*Case, err error) {
 				case err != nil || !mapEq(mi, mo):
 					cs.Oracle = &Violation{Class: "e2e-tags-text", Detail: fmt.Sprintf("written %s, returned Tags %s", show(e.Tags), show([]byte(ev.Tags)))}
 				case ferr != nil || string(fo) != string(f1)+string(f2):
-					cs.Oracle = &Violation{Class: "e2e-fields-text", Detail: fmt.Sprintf("written %s + %s, returned Fields %s", show(e.WF), show(e.EF), show([]byte(ev.Fields)))}
+					cs.Oracle = &Violation{Class: "e2e-fields-text", Detail: fmt.Sprintf("event %s written with fields %s + %s, returned Fields %s", msg, show(e.WF), show(e.EF), show([]byte(ev.Fields)))}
+				case cnt[msg] != 1:
+					cs.Oracle = &Violation{Class: "e2e-event-returned-more-than-once", Detail: fmt.Sprintf("the event written once with tags %s is returned %d times by one SELECT", show(e.Tags), cnt[msg])}
 				}
 			}
 		} else if acked[i] {
@@ -806,7 +838,133 @@ func mkE2E(rp Replay) (out []*Case, err error) {
 		cs.Coq = GApp("KE2E", GBytes(e.Tags), GBytes(e.WF), GBytes(e.EF), ut, quoteTable(vals), GBool(acked[i]), obs)
 		out = append(out, cs)
 	}
+	e2ePersisted(rp, out, acked, got, dir, &srv, readAll)
 	return out, nil
+}
+
+// e2ePersisted: what the server keeps on disk for the tags and what it emits after a restart. Only for batches all of
+// whose acknowledged tag sets have a line that denotes them (classifyTagsNow: the line of a set with an unbalanced inner
+// double quote is not accepted back -- the recorded C08 class -- and the index loader stops on it) and that is valid
+// UTF-8 (the index file is JSON: see C06, identity-restart-invalid-utf8-line). A violation goes to the case of the
+// event concerned, unless that case has one already.
+func e2ePersisted(rp Replay, out []*Case, acked []bool, got map[string]*api.LogEvent, dir string, srv **Server,
+	readAll func(*Server) (map[string]*api.LogEvent, map[string]int)) {
+	type wset struct {
+		m    map[string]string
+		line string
+	}
+	sets := map[int]wset{}
+	lines := map[string]int{} // canonical line -> first event written with that set
+	for i, e := range rp.Evs {
+		if !acked[i] {
+			continue
+		}
+		m, err := rToMap(string(e.Tags))
+		if err != nil {
+			return
+		}
+		ts := rMapToSet(m)
+		ln := string(ts.Line())
+		if classifyTagsNow(m) != "" || !utf8.ValidString(ln) {
+			for _, cs := range out {
+				cs.Tags = append(cs.Tags, "persisted:skipped")
+			}
+			return
+		}
+		sets[i] = wset{m, ln}
+		if _, ok := lines[ln]; !ok {
+			lines[ln] = i
+		}
+	}
+	if len(sets) == 0 {
+		return
+	}
+	set := func(i int, v *Violation) {
+		if out[i].Oracle == nil {
+			out[i].Oracle = v
+		}
+	}
+	first := -1
+	for i := range rp.Evs {
+		if acked[i] {
+			first = i
+			break
+		}
+	}
+	(*srv).Stop()
+	// the keys of tindex.dat
+	var keys []string
+	filepath.Walk(dir, func(p string, fi os.FileInfo, err error) error {
+		if err == nil && !fi.IsDir() && fi.Name() == "tindex.dat" {
+			var mp map[string]json.RawMessage
+			if data, e := ioutil.ReadFile(p); e == nil && json.Unmarshal(data, &mp) == nil {
+				for k := range mp {
+					keys = append(keys, k)
+				}
+			}
+		}
+		return nil
+	})
+	sort.Strings(keys)
+	seen := map[string]bool{}
+	for _, k := range keys {
+		seen[k] = true
+		if _, ok := lines[k]; ok {
+			continue
+		}
+		// a record under a text that is not the canonical line of a written set: blame the event that arrived with it,
+		// else one whose set the key denotes, else the first one
+		who := first
+		km, kerr := rToMap(k)
+		for i, e := range rp.Evs {
+			if acked[i] && (string(e.Tags) == k || (kerr == nil && mapEq(km, sets[i].m))) {
+				who = i
+				break
+			}
+		}
+		set(who, &Violation{Class: "e2e-persisted-tag-line-not-canonical", Detail: fmt.Sprintf("after the write with tags %s the tag index file holds the key %s; the canonical lines of the written sets are %v", show(rp.Evs[who].Tags), show([]byte(k)), showKeys(lines))})
+	}
+	for ln, i := range lines {
+		if !seen[ln] {
+			set(i, &Violation{Class: "e2e-persisted-tag-line-missing", Detail: fmt.Sprintf("the set written with tags %s has no record under its line %s in the tag index file (keys %v)", show(rp.Evs[i].Tags), show([]byte(ln)), keys)})
+		}
+	}
+	// restart on the same directory
+	s2, err := StartServer(ServerOpts{Dir: dir})
+	if err != nil {
+		set(first, &Violation{Class: "e2e-restart-failed", Detail: fmt.Sprintf("the server does not start again on the directory it wrote (first tags %s): %v", show(rp.Evs[first].Tags), err)})
+		return
+	}
+	*srv = s2
+	got2, cnt2 := readAll(s2)
+	for i := range rp.Evs {
+		if !acked[i] {
+			continue
+		}
+		msg := fmt.Sprintf("m%04d", i)
+		before, after := got[msg], got2[msg]
+		switch {
+		case before == nil:
+		case after == nil || cnt2[msg] != 1:
+			set(i, &Violation{Class: "e2e-after-restart-event-count", Detail: fmt.Sprintf("the event written with tags %s is returned %d times after a restart", show(rp.Evs[i].Tags), cnt2[msg])})
+		case after.Tags != before.Tags:
+			set(i, &Violation{Class: "e2e-after-restart-tags-text", Detail: fmt.Sprintf("written %s: Tags %s before, %s after a restart", show(rp.Evs[i].Tags), show([]byte(before.Tags)), show([]byte(after.Tags)))})
+		case after.Fields != before.Fields:
+			set(i, &Violation{Class: "e2e-after-restart-fields-text", Detail: fmt.Sprintf("written %s + %s: Fields %s before, %s after a restart", show(rp.Evs[i].WF), show(rp.Evs[i].EF), show([]byte(before.Fields)), show([]byte(after.Fields)))})
+		}
+	}
+	for _, cs := range out {
+		cs.Tags = append(cs.Tags, "persisted:checked")
+	}
+}
+
+func showKeys(m map[string]int) []string {
+	var ks []string
+	for k := range m {
+		ks = append(ks, show([]byte(k)))
+	}
+	sort.Strings(ks)
+	return ks
 }
 
 func unquoteTableMany(texts ...string) string {
@@ -907,8 +1065,62 @@ func genE2E(r *Rng, n int) []E2EEvent {
 			e.EF = []byte("broken") // field.Parse drops the error
 		}
 		evs = append(evs, e)
+		if r.Chance(1, 4) {
+			// same-shape neighbours: the next events of the same partition have field lists of exactly the same encoded
+			// length (and messages of the same length) but other values: every event must come back with ITS Fields text
+			for k := r.Range(1, 3); k > 0; k-- {
+				if ef, ok := sameShape(r, evs[len(evs)-1].EF); ok {
+					evs = append(evs, E2EEvent{Tags: e.Tags, WF: e.WF, EF: ef})
+				}
+			}
+		}
 	}
 	return evs
+}
+
+// sameShape: the field text with one letter or digit replaced by another one (same length, other value or name)
+func sameShape(r *Rng, ef []byte) ([]byte, bool) {
+	var idx []int
+	for i, c := range ef {
+		if (c >= 'a' && c <= 'z') || (c >= '0' && c <= '9') {
+			idx = append(idx, i)
+		}
+	}
+	if len(idx) == 0 {
+		return nil, false
+	}
+	out := append([]byte{}, ef...)
+	i := idx[len(idx)-1-r.Intn((len(idx)+1)/2)] // in the second half: mostly a value
+	for {
+		c := "abcxyz0123456789"[r.Intn(16)]
+		if c != out[i] {
+			out[i] = c
+			break
+		}
+	}
+	return out, true
+}
+
+// corpusE2E: partitions created with non-canonical spellings of their tag sets (braces, blanks, unsorted names,
+// needless quotes), written again with other spellings; and same-shape neighbouring events in one partition
+func corpusE2E() []E2EEvent {
+	T := func(t, wf, ef string) E2EEvent { return E2EEvent{Tags: []byte(t), WF: []byte(wf), EF: []byte(ef)} }
+	return []E2EEvent{
+		T(`{ zone="a,b" , app = x }`, `common=c1`, `v=1`),
+		T(`zone="a,b",app=x`, `common=c1`, `v=2`),
+		T(`app=x,zone="a,b"`, `common=c1`, `v=3`),
+		T(`app=x,zone="a,b"`, `common=c1`, `v="a,b"`),
+		T(`app=x,zone="a,b"`, `common=c1`, `v=xyz`),
+		T(`app=x,zone="a,b"`, `common=c1`, `v=" yz"`),
+		T(`app=x,zone="a,b"`, `common=c1`, `w=xyz`),
+		T(`b=2,a=1`, `k=v`, ``),
+		T(` a = "1" , b=2 `, `k=w`, ``),
+		T(`{{a=1,b=2}}`, `k=x`, `q=1`),
+		T(`name = "app1"`, `k=v`, `q=2`),
+		T(`name=app1`, `k=v`, `q=3`),
+		T(`{ip="1.2.3.4"}`, ``, `a=1,b=2`),
+		T(`ip=1.2.3.4`, ``, `a=2,b=1`),
+	}
 }
 
 func showItems(items [][]byte) string {
@@ -1181,7 +1393,7 @@ func main() {
 		}
 		// end to end: one in-process server, events written and read back through RPC
 		// (a query without FROM merges at most 50 partitions: at most 30 events, hence partitions, per server)
-		evs := genE2E(r, c.N(40))
+		evs := append(corpusE2E(), genE2E(r, c.N(40))...)
 		for lo := 0; lo < len(evs); lo += 30 {
 			hi := lo + 30
 			if hi > len(evs) {
